@@ -25,7 +25,7 @@ PID = "C44"
 LEVEL = "exploration"
 RULE = ("Hypothesis op sequences (<=14 ops): update with 1-3 keys (right/wrong types, wrong type in any position, unknown "
         "key), attribute assignment, set()-specs rendered from typed intents (+malformed), deferred updates/specs with "
-        "late add_option + process_deferred, reset, toggler/setter, save->load round trip; string values from "
+        "late add_option + process_deferred, reading a sequence option and changing the returned list in place (then optionally update() with it), reset, toggler/setter, save->load round trip; string values from "
         "YAML-special words, quotes, ': ', '#', newlines, spaces, arbitrary Unicode scalars; a listener that reacts to new values of one option by a nested update of two others (non-idempotent append) and runs "
         "before the vetoing listeners; non-trivial = an update "
         "with >=2 keys of which one is rejected by type or by a listener, an update rejected after a nested update, or a round trip containing a YAML-special "
@@ -208,6 +208,11 @@ _ops = st.one_of(
     st.tuples(st.just("add_late"), st.sampled_from(LATE_NAMES)),
     st.tuples(st.just("process_deferred")),
     st.tuples(st.just("reset")),
+    # read a sequence option, change the returned list in place, optionally hand it back through update()
+    st.tuples(st.just("read_mutate"), st.sampled_from(["seq", "seq2", "seq", "seq2", "late_seq"]),
+              st.sampled_from(["append", "append", "extend", "clear", "append_bad"]), _str, st.booleans()),
+    st.tuples(st.just("read_mutate"), st.sampled_from(["seq", "seq2", "seq", "seq2", "late_seq"]),
+              st.sampled_from(["append", "append", "extend", "clear", "append_bad"]), _str, st.booleans()),
     st.tuples(st.just("toggle"), st.sampled_from(["b", "b2"])),
     st.tuples(st.just("setter"), _kv_known),
     st.tuples(st.just("save_load"), st.booleans(), st.booleans()),
@@ -375,6 +380,33 @@ def check_case(case, ctx):
             unpredictable = False       # accepted outcome not modelled (malformed spec accepted etc.)
             raised = None
             tag = k
+            if k == "read_mutate":
+                # values read from the options are the caller's own: changing them in place must not change the option
+                n, how = op[1], op[2]
+                if n not in declared:
+                    continue
+                nt.add("read-mutate")
+                lst = getattr(opts, n)
+                if how == "append":
+                    lst.append(op[3])
+                elif how == "extend":
+                    lst.extend([op[3], op[3] + "2", "x"])
+                elif how == "clear":
+                    del lst[:]
+                else:
+                    lst.append(5)
+                now = getattr(opts, n)
+                if strict(now) != strict(model[n]):
+                    ctx.fail("aliasing:read-value-shares-option-state:" + how,
+                             "step %d %s: after changing the list read from %s in place the option is %r (was %r)" % (
+                                 step, _short(op), n, now, model[n]))
+                    return
+                if not op[4]:
+                    ctx.cls("accepted:read_mutate")
+                    continue
+                # ... and then assigned through update(): an ordinary update with that list
+                k, op = "update", ["update", [[n, lst]]]
+                tag = "update"
             try:
                 if k in ("update", "update_unknown", "update_defer"):
                     kvs = op[1]
